@@ -129,6 +129,25 @@ fn special_forms() -> Vec<String> {
         "{{ m.a }}{% set m = 1 %}{{ m.b }}",
         "{% set a = a.b %}{{ a.c }}",
         "{% for a in a.items %}{{ a.x }}{% endfor %}",
+        // names bound inside a construct and read where the binding is gone: else branches (they
+        // run after the loop scope is left), text after the construct, sibling branches
+        "{% for item in xs %}[{{ item }}]{% else %}none: {{ item }}{% endfor %}",
+        "{% for k, i in m|items %}{{ k }}{% else %}{{ k }}{{ i }}{% endfor %}",
+        "{% for i in xs %}{% set q = 1 %}{% else %}{{ q }}{% endfor %}",
+        "{% for i in xs if i > a %}x{% else %}{{ i }}{{ y }}{% endfor %}",
+        "{% for i in xs %}{{ loop.index }}{% else %}{{ loop }}{% endfor %}",
+        "{% for i in xs %}{% for y in xs %}{% endfor %}{% else %}{% for q in [1] %}{{ y }}{% else %}{{ q }}{% endfor %}{% endfor %}",
+        "{% for i in xs recursive %}{{ loop(i) }}{% else %}{{ i }}{% endfor %}",
+        "{% with q = 1 %}{{ q }}{% endwith %}{{ q }}{% with q = q %}{% endwith %}",
+        "{% macro mm(q) %}{{ q }}{% endmacro %}{{ q }}",
+        "{% macro mm(q) %}{% set y = 1 %}{% endmacro %}{{ mm(1) }}{{ y }}",
+        "{% call(q) foo() %}{{ q }}{% endcall %}{{ q }}",
+        "{% if a %}{% for y in xs %}{% endfor %}{% else %}{{ y }}{% endif %}",
+        "{% for i in xs %}{% if i %}{% set y = 1 %}{% else %}{{ y }}{% endif %}{% else %}{{ y }}{% endfor %}",
+        "{% filter upper %}{% for y in xs %}{% endfor %}{% endfilter %}{{ y }}",
+        "{% set a %}{% for y in xs %}{% endfor %}{% endset %}{{ y }}",
+        "{% for i in xs %}{% macro mm() %}{{ i }}{{ y }}{% endmacro %}{% else %}{{ mm }}{% endfor %}",
+        "{% for i in xs %}{% else %}{% for i in xs %}{% else %}{{ i }}{% endfor %}{% endfor %}",
     ];
     v.iter().map(|s| s.to_string()).collect()
 }
